@@ -7,7 +7,9 @@
    cancel_all - TaskManager.cancel_tasks() cancels every registered task (the pinned all() over a generator stops
               at the first task whose cancel() returns False);
    recancel - the connection's tasks are cancelled again after protocol.shutdown() (the pinned close() cancels them only
-              before it, so a reconnect attempt scheduled by a loss handled during the shutdown survives). *)
+              before it, so a reconnect attempt scheduled by a loss handled during the shutdown survives);
+   catches  - the time-out of the wait for the transport to confirm that it is closed (FrameWriter.close, 10 s) is caught
+              where it is raised (false: it escapes through close(), which then raises instead of returning). *)
 From Coq Require Import NArith List Bool Arith.
 From PV Require Import Generated.Tables.
 Import ListNotations.
@@ -46,12 +48,22 @@ Definition running (l : list bool) : nat := length (filter (fun b => b) l).
 
 (* walk = the connection's registered tasks (reconnect attempts) in the order close() meets them *)
 (* late = reconnect attempts scheduled while the protocol shuts down (a connection loss detected as close() is issued) *)
-Definition close (bounded always separate cancel_all recancel : bool) (walk : list bool) (late : nat) (s : cstate) : cresult :=
+(* stall = how long the transport takes to confirm that it is closed: Some d seconds, None = never (a stalled peer) *)
+Definition confirms_in_time (stall : option N) : bool :=
+  match stall with Some d => (d <? writer_timeout)%N | None => false end.
+Definition close_wait (stall : option N) : N :=
+  match stall with Some d => N.min d writer_timeout | None => writer_timeout end.
+
+Definition close (bounded always separate cancel_all recancel catches : bool) (walk : list bool) (late : nat)
+                 (stall : option N) (s : cstate) : cresult :=
   let idle := Nat.eqb (s_queued s) 0 && Nat.eqb (s_unread s) 0 in
   let waits := if bounded then s_connected s && negb idle else negb idle in
   let drains := s_connected s && s_talking s in        (* a live producer with a talking controller empties the queues *)
-  let returns := negb waits || drains || bounded in
-  let seconds := if waits then (if drains then N.min drain_bound (N.of_nat (s_queued s + s_unread s + 1)) else drain_bound) else 0%N in
+  (* only a connected protocol still holds a transport to close (a lost one was closed when the loss was handled) *)
+  let escapes := s_connected s && negb catches && negb (confirms_in_time stall) in
+  let returns := (negb waits || drains || bounded) && negb escapes in
+  let seconds := ((if waits then (if drains then N.min drain_bound (N.of_nat (s_queued s + s_unread s + 1)) else drain_bound) else 0)
+                  + (if s_connected s then close_wait stall else 0))%N in
   let shut := always || s_connected s in
   let hidden := if separate then 0%nat
                 else sum_tasks (filter (fun m => existsb (fun t => Nat.eqb (fst t) (fst m)) (s_thermostats s)) (s_mixers s)) in
